@@ -20,7 +20,15 @@ QUERIES = st.lists(pc.QUERY, min_size=4, max_size=4)
 
 
 def strategy(tier):
-    return st.tuples(pc.graph_strategy(), QUERIES, st.integers(0, 9)).map(lambda x: dict(x[0], q=[list(q) for q in x[1]], mt=x[2]))
+    return st.tuples(pc.graph_strategy(tier=tier), QUERIES, st.integers(0, 9)).map(lambda x: dict(x[0], q=[list(q) for q in x[1]], mt=x[2]))
+
+
+def exhaustive(tier):
+    if tier != 'thorough':
+        return None
+    return {'cases': pc.small_universe_cases(directed_step=16, loops=True),
+            'bound': 'every undirected presence relation on 3 nodes x instants {0,1,2} incl. two self-loop pairs (2^15 - 1) and every 16th '
+                     'directed one by bit index (16383), each with all roots, v in {None, each node}, windows [first,last] and [first,first+1]'}
 
 
 def check_result(rec, res, O, u, v, start, end, ctx, group_u=None):
@@ -58,6 +66,17 @@ def run_case(case, rec):
         return False
     O = pc.PathOracle(M)
     nontrivial = False
+    if case.get('all_q'):
+        ids = M.ids()
+        for u in M.nodes:
+            for v in [None] + list(M.nodes):
+                for (start, end) in {(None, None), (ids[0], min(ids[0] + 1, ids[-1]))}:
+                    ctx = '%s time_respecting_paths(u=%r, v=%r, start=%r, end=%r)' % (case['cls'], u, v, start, end)
+                    ok, res = safe(al.time_respecting_paths, G, u, v, start, end)
+                    if rec.check('C12.call', ok, lambda: '%s raised %r' % (ctx, res)) and not (isinstance(res, list) and not res):
+                        if check_result(rec, res, O, u, v, start, end, ctx) >= 2:
+                            nontrivial = True
+        return nontrivial
     for qi, q in enumerate(case['q']):
         u, v, start, end = pc.resolve(M, d.nodes, q)
         ctx = '%s time_respecting_paths(u=%r, v=%r, start=%r, end=%r)' % (case['cls'], u, v, start, end)
